@@ -169,8 +169,8 @@ R06.6 one registry per output file: every iteration of the per-file loop in Run 
 	// R06.5
 	if fd := FuncDecl(r.Pkg("internal"), "Parser.ParsePackages"); fd != nil {
 		info := r.Pkg("internal").TypesInfo
-		for _, marker := range []string{"packages", "pkg.GoFiles", "declaredInterfaces"} {
-			rs := rangeOver(fd, marker)
+		for _, marker := range []string{"packages.Load(", ".GoFiles", ".declaredInterfaces"} {
+			rs := rangeOverC(r.Pkg("internal"), fd, marker)
 			ok := false
 			if rs != nil {
 				if t := info.TypeOf(rs.X); t != nil {
@@ -192,7 +192,7 @@ func ruleFreshGenerator(c *Ctx, r *Repo, rule string) {
 	if run == nil {
 		return
 	}
-	rs := rangeOver(run, "mockFileToInterfaces")
+	rs := rangeOverC(cmdp, run, "map[string]*internal/cmd.InterfaceCollection")
 	if rs == nil {
 		c.Fail(rule, "Run|file-loop", r.Pos(run.Pos()), "no loop over the output files")
 		return
